@@ -10,7 +10,8 @@ import GmqttVerif.Proofs.BrokerInbound
   `publish_accepted`: `B.publish r = publishTail …`; `forwarded u qos pid` = not (QoS 2 and pid ∈ u);
   `unackAfterPub u qos pid` = u with pid appended when QoS 2 and new; `pubMsg r` the message built from `r`;
   `pubRetain`, `pubAck` the retained-store and acknowledgement steps; `Sim u st`: `u` and the component store hold
-  the same ids.
+  the same ids; `InRun conn b evs fl b'`: a run of accepted PUBLISH / PUBREL packets on `conn` from `b` to `b'`, `evs` the
+  events as the component model sees them, `fl` for each whether `deliverMessage` was called.
 -/
 namespace GmqttVerif.Broker
 open GmqttVerif.Deliver
@@ -86,50 +87,6 @@ theorem unack_refines_inbound (u : List Nat) (st : Inbound.St) (h : Sim u st) :
     (∀ pid, Sim (u.filter (· != pid)) (Inbound.step st (.pubrel pid)).1 ∧
       (Inbound.step st (.pubrel pid)).2.deliver = false) :=
   ⟨fun qos pid dup => pub_refines u st h qos pid dup, fun pid => ⟨pubrel_refines u st h pid, rfl⟩⟩
-
-/-- a run of accepted PUBLISH / PUBREL packets on connection `conn`: the events as the component model sees them,
-    and for each whether `deliverMessage` was called (`forwarded` on the session's id list at that moment;
-    `qos2_forward_iff` / `publish_forwards_iff` say that this is what `B.publish` does) -/
-inductive InRun (conn : String) : B → List Inbound.Event → List Bool → B → Prop
-  | nil (b : B) : InRun conn b [] [] b
-  | pub (b : B) (r : PubReq) (c : Cli) (s : Sess) (evs : List Inbound.Event) (fl : List Bool) (b' : B) :
-      r.conn = conn → b.cli? conn = some c → b.sess? c.cid = some s → TopicOk b c r →
-      ¬ (c.v = 5 ∧ r.qos > 0 ∧ c.quota = 0) → ¬ (c.v = 5 ∧ b.cfg.maxPacket ≠ 0 ∧ r.size > b.cfg.maxPacket) →
-      ¬ (b.cfg.retainAvail = false ∧ r.retain = true) →
-      InRun conn (b.publish r) evs fl b' →
-      InRun conn b (.pub r.qos r.pid r.dup .ok :: evs) (forwarded s.unack r.qos r.pid :: fl) b'
-  | rel (b : B) (pid : Nat) (c : Cli) (s : Sess) (evs : List Inbound.Event) (fl : List Bool) (b' : B) :
-      b.cli? conn = some c → b.sess? c.cid = some s →
-      InRun conn (b.pubrelIn conn pid) evs fl b' →
-      InRun conn b (.pubrel pid :: evs) (false :: fl) b'
-
-theorem InRun.sim {conn : String} {b b' : B} {evs : List Inbound.Event} {fl : List Bool} (h : InRun conn b evs fl b')
-    (c : Cli) (s : Sess) (hc : b.cli? conn = some c) (hs : b.sess? c.cid = some s) (st : Inbound.St)
-    (hsim : Sim s.unack st) : fl = (Inbound.run st evs).2.map (·.deliver) := by
-  induction h generalizing c s st with
-  | nil => rfl
-  | pub b r c1 s1 evs fl b' hconn hc1 hs1 htop hq hsz hret _ ih =>
-    subst hconn
-    rw [hc] at hc1; cases hc1
-    rw [hs] at hs1; cases hs1
-    obtain ⟨t, c2, hres, heq⟩ := publish_accepted b r c1 s1 hc hs htop hq hsz hret
-    obtain ⟨h2conn, h2cid, _⟩ := aliasRes_ok hres
-    have hcid2 : c2.cid = c1.cid := by rw [h2cid, pubCli_cid]
-    have hcli2 : ((b.setCli (pubCli c1 r)).setCli c2).cli? r.conn = some c2 := by
-      rw [cli?_setCli, if_pos (by rw [h2conn, pubCli_conn]; exact (cli?_some hc).2)]
-    obtain ⟨⟨s', hs', hu⟩, ⟨c', hc', hcid'⟩⟩ :=
-      publishTail_after ((b.setCli (pubCli c1 r)).setCli c2) c2 { r with topic := t } s1 c2 hcli2
-    obtain ⟨hsim', hdel⟩ := pub_refines s1.unack st hsim r.qos r.pid r.dup
-    have := ih c' s' (by rw [heq]; exact hc') (by rw [heq, hcid', hcid2, ← (sess?_some hs).2]; exact hs') _
-      (by rw [hu]; exact hsim')
-    simp only [Inbound.run, List.map_cons, hdel, this]
-  | rel b pid c1 s1 evs fl b' hc1 hs1 _ ih =>
-    rw [hc] at hc1; cases hc1
-    rw [hs] at hs1; cases hs1
-    obtain ⟨hs', ⟨c', hc', hcid'⟩, _⟩ := pubrelIn_after b conn pid c1 s1 hc hs
-    have := ih c' _ hc' (by rw [hcid']; exact hs') _ (pubrel_refines s1.unack st hsim pid)
-    simp only [Inbound.run, List.map_cons, this]
-    rfl
 
 /-- 4. `qos2_exactly_once_broker`. For every run of accepted PUBLISH and PUBREL packets on one connection that
     starts with no id awaiting PUBREL, the PUBLISHes forwarded to the subscribers are exactly those that C04's
